@@ -191,8 +191,11 @@ def roundtrip_part(res, spec, tier, scratch):
                 lines = rt_text(ids, choice, variant)
                 res.count("roundtrip_graphs")
                 orders = list(gen.line_orders(len(lines), len(ids))) if len(lines) <= 4 else [list(range(len(lines))), list(range(len(lines)))[::-1]]
-                for order in orders:
-                    roundtrip(res, scratch, "".join(lines[i] + "\n" for i in order), f"{len(ids)} nodes, {len(choice)} links, variant {variant}")
+                for oi, order in enumerate(orders):
+                    text = "".join(lines[i] + "\n" for i in order)
+                    if (gi + oi) % 3 == 1:
+                        text = text[:-1]  # some files end without a newline
+                    roundtrip(res, scratch, text, f"{len(ids)} nodes, {len(choice)} links, variant {variant}")
     if spec["shard"] == 0:
         res.sample({"roundtrip_file": rt_text(["s1", "s2"], [(side_pairs(["s1", "s2"])[4], True), (side_pairs(["s1", "s2"])[7], False)], 2)})
 
